@@ -17,7 +17,7 @@ import numpy as np
 
 from ..refmodel import ref_stats
 from ..sim import gen_sched, HarnessError
-from ..util import A, L, Result, sig6, digest, compositions, random_composition
+from ..util import A, L, Result, sig6, digest, compositions, random_composition, is_harness_bug
 from .common import SimRec, gen_data, gen_simplex, trim, tail
 
 ID = "C02"
@@ -84,7 +84,9 @@ def _rejected_call(acc, how, m, cc, dd, rec):
             acc += other
         else:
             acc += 1.5
-    except Exception:
+    except Exception as _e:
+        if is_harness_bug(_e):
+            raise HarnessError(f"harness bug: {_e!r}")
         rec.probe("rejected_call_on_accumulator_" + how)
         rec.faults["F10_rejected_call"] = rec.faults.get("F10_rejected_call", 0) + 1
         return True
@@ -415,6 +417,8 @@ def run_case(case, replay=None):
     except HarnessError:
         raise
     except Exception as e:
+        if is_harness_bug(e):
+            raise HarnessError(f"harness bug: {e!r}")
         return Result.violation("accumulate-raises", {"exception": repr(e)[:300]}, **rec.fields())
     if len(parts) != nb:
         return Result.violation("transform-length", {"got": len(parts), "want": nb}, **rec.fields())
@@ -474,7 +478,9 @@ def run_case(case, replay=None):
         try:
             from bob.learn.em import gmm as _gmm_mod
             _ms = _gmm_mod.m_step
-        except Exception:
+        except Exception as _e:
+            if is_harness_bug(_e):
+                raise HarnessError(f"harness bug: {_e!r}")
             _ms = None
             rec.probe("repo_reduction_unavailable")
         if _ms is not None:
@@ -488,6 +494,8 @@ def run_case(case, replay=None):
             except HarnessError:
                 raise
             except Exception as e:
+                if is_harness_bug(e):
+                    raise HarnessError(f"harness bug: {e!r}")
                 return Result.violation("repo-reduction-raises", {"exception": repr(e)[:300],
                                                                   "blocks": len(pool)}, **rec.fields())
             rec.probe("repo_reduction_checked")
@@ -522,6 +530,8 @@ def run_case(case, replay=None):
         except HarnessError:
             raise
         except Exception as e:
+            if is_harness_bug(e):
+                raise HarnessError(f"harness bug: {e!r}")
             return Result.violation("merge-raises", {"step": "accumulator:" + how,
                                                      "exception": repr(e)[:300]}, **rec.fields())
         rec.probe("accumulator_" + how)
@@ -574,6 +584,8 @@ def run_case(case, replay=None):
         except HarnessError:
             raise
         except Exception as e:
+            if is_harness_bug(e):
+                raise HarnessError(f"harness bug: {e!r}")
             return Result.violation("merge-raises", {"step": step_no, "op": step[0],
                                                      "exception": repr(e)[:300]}, **rec.fields())
         v = inv(pool[-1], rowc[-1], f"merge{step_no}")
@@ -589,6 +601,8 @@ def run_case(case, replay=None):
     except HarnessError:
         raise
     except Exception as e:
+        if is_harness_bug(e):
+            raise HarnessError(f"harness bug: {e!r}")
         return Result.violation("merge-raises", {"step": "final-compute", "exception": repr(e)[:300]},
                                 **rec.fields())
     rec.note(list(merged))
@@ -663,6 +677,8 @@ def run_case(case, replay=None):
             except ValueError:
                 raised = "ValueError"
             except Exception as e:
+                if is_harness_bug(e):
+                    raise HarnessError(f"harness bug: {e!r}")
                 raised = repr(e)[:200]
             if raised != "ValueError":
                 return Result.violation("incompatible-shapes-not-refused",
